@@ -909,6 +909,19 @@ def correspondence(ctx):
 # oracle: the property on the implementation alone
 
 
+def _h5obj(e):
+    g = e._h5group
+    return g.group if hasattr(g, "group") else g.dataset
+
+
+def same_obj(a, b):
+    """two handles stand for one HDF5 object (h5py compares object identity, not names or ids)"""
+    try:
+        return bool(_h5obj(a) == _h5obj(b))
+    except Exception:
+        return False
+
+
 def _content(e):
     """id + content as seen through one handle"""
     out = {"id": e.id, "name": getattr(e, "name", None), "type": getattr(e, "type", None),
@@ -921,9 +934,22 @@ def _content(e):
     return out
 
 
+def _brief(e):
+    try:
+        return [getattr(e, "name", None), e.id, getattr(e, "definition", None)]
+    except Exception as ex:
+        return [type(ex).__name__]
+
+
+COPY_BLOCK = "b1c"          # an id-keeping copy of the first block: every entity in it shares name AND id with its original
+STORES = (("data_arrays", "data_array"), ("tags", "tag"), ("multi_tags", "multi_tag"), ("groups", "group"))
+DF_COLS = [("t", "s"), ("v", "mV"), ("w", "kg")]
+
+
 class Scene:
-    """a file with equal names in every block and the oracle's own record of which handle-getters
-    lead to which entity"""
+    """a file with equal names in every block, pairs of DISTINCT entities that carry the SAME entity id
+    (id-keeping copies: inside a block under another name, in another block under the same name, a whole copied
+    block) and the oracle's own record - by entity, never by id - of which handle-getters lead to which entity"""
 
     def __init__(self, ctx, rng, tag, nblocks):
         self.rng = rng
@@ -932,48 +958,143 @@ class Scene:
         self.log = []
         self.fails = []
         self.evals = 0
-        self.bnames = BLOCKS[:nblocks]
-        # (block, kind, name) -> list of (description, getter(f) -> handle)
+        # (block, kind, name) -> list of (description, getter(f) -> handle); the first one is the owning container
         self.paths = {}
+        self.ids = {}         # (block, kind, name) -> entity id
         self.held = {}        # (key, desc) -> handle obtained earlier through that path and kept alive
+        self.lists = {}       # (block, owner kind, owner name, list) -> the entities it must hold, in order
+        self.featdata = {}    # (block, tag kind, tag name, position) -> the entity its data link must lead to
+        self.frames = {}      # block -> expected columns of the data frame "df": {"cols": [(name, unit)], "rows": [[...]]}
         f = self.f
         sec = f.create_section("sec", "t")
         sec.create_section("sub", "t")
         self.reg(None, "section", "sec", "file.sections", lambda f: f.sections["sec"])
         self.reg(None, "section", "sub", "sec.sections", lambda f: f.sections["sec"].sections["sub"])
+        notes = []
+        try:            # a second section with the id of `sub`
+            f.copy_section(f.sections["sec"].sections["sub"], name="subcopy")
+            self.reg(None, "section", "subcopy", "file.sections", lambda f: f.sections["subcopy"])
+        except Exception as ex:
+            notes.append("copy_section: %s" % type(ex).__name__)
+        independent = BLOCKS[:nblocks]
+        for k, bn in enumerate(independent):
+            notes += self.build_block(bn, k == 0)
+        for bn in independent[1:]:       # same name, same id, other block
+            try:
+                f.blocks[bn].create_data_array(copy_from=f.blocks[independent[0]].data_arrays["z"])
+            except Exception as ex:
+                notes.append("cross-block copy: %s" % type(ex).__name__)
+        self.bnames = list(independent)
+        if rng.random() < 0.6:
+            try:
+                f.create_block(name=COPY_BLOCK, copy_from=f.blocks[independent[0]])
+                self.bnames.append(COPY_BLOCK)
+            except Exception as ex:
+                notes.append("block copy: %s" % type(ex).__name__)
         for bn in self.bnames:
-            b = f.create_block(bn, "t")
-            for nm in ARR_NAMES[:4]:
-                shape = (3,) if nm in ("pos", "ext") else tuple(rng.choice(SHAPES))
-                data = np.array([rng.randrange(-20, 40) / 4.0 for _ in range(int(np.prod(shape)))]).reshape(shape)
-                b.create_data_array(nm, "t", data=data)
-                self.reg(bn, "data_array", nm, "block.data_arrays", lambda f, bn=bn, nm=nm: f.blocks[bn].data_arrays[nm])
-            for g in ("g", "h"):
-                b.create_group(g, "t")
-                self.reg(bn, "group", g, "block.groups", lambda f, bn=bn, g=g: f.blocks[bn].groups[g])
-            b.create_tag("tg", "t", [0.0])
-            self.reg(bn, "tag", "tg", "block.tags", lambda f, bn=bn: f.blocks[bn].tags["tg"])
-            b.create_multi_tag("mt", "t", positions=b.data_arrays["pos"])
-            self.reg(bn, "multi_tag", "mt", "block.multi_tags", lambda f, bn=bn: f.blocks[bn].multi_tags["mt"])
-            self.alias(bn, "data_array", "pos", "mt.positions", lambda f, bn=bn: f.blocks[bn].multi_tags["mt"].positions)
-            s = b.create_source("s", "t")
-            s.create_source("deep", "t")
-            self.reg(bn, "source", "s", "block.sources", lambda f, bn=bn: f.blocks[bn].sources["s"])
-            self.reg(bn, "source", "deep", "s.sources", lambda f, bn=bn: f.blocks[bn].sources["s"].sources["deep"])
-        self.log.append(["setup", self.bnames])
+            self.register_block(bn)
+        self.log.append(["setup", self.bnames, "in every block: arrays x,y,pos,ext (+z), x2 = id-keeping copy of x, "
+                         "groups g,h, tag tg (+ copy tg2), multi-tag mt (+ copy mt2), sources s/deep, frame df; "
+                         "z copied by name into the other blocks; %s (when present) = id-keeping copy of %s"
+                         % (COPY_BLOCK, independent[0])] + notes)
+        self.distinguish()
+
+    # -- construction ------------------------------------------------------------------
+    def build_block(self, bn, first):
+        rng, f = self.rng, self.f
+        notes = []
+        b = f.create_block(bn, "t")
+        for nm in ARR_NAMES[:4] + (["z"] if first else []):
+            shape = (3,) if nm in ("pos", "ext") else tuple(rng.choice(SHAPES))
+            data = np.array([rng.randrange(-20, 40) / 4.0 for _ in range(int(np.prod(shape)))]).reshape(shape)
+            b.create_data_array(nm, "t", data=data)
+        for g in ("g", "h"):
+            b.create_group(g, "t")
+        b.create_tag("tg", "t", [0.0])
+        b.create_multi_tag("mt", "t", positions=b.data_arrays["pos"])
+        s = b.create_source("s", "t")
+        s.create_source("deep", "t")
+        try:
+            rows = [(float(i), rng.randrange(-8, 8) / 2.0, float(rng.randrange(5))) for i in range(3)]
+            df = b.create_data_frame("df", "t", col_names=[c for c, _ in DF_COLS], col_dtypes=[float] * len(DF_COLS),
+                                     data=rows)
+            df.units = [u for _, u in DF_COLS]
+            self.frames[bn] = {"cols": list(DF_COLS), "rows": [list(r) for r in rows]}
+        except Exception as ex:
+            notes.append("create_data_frame: %s" % type(ex).__name__)
+        for what in ("x2", "tg2", "mt2"):       # id-keeping copies inside the block
+            try:
+                if what == "x2":
+                    b.create_data_array(name="x2", copy_from=b.data_arrays["x"])
+                elif what == "tg2":
+                    b.create_tag(name="tg2", copy_from=b.tags["tg"])
+                else:
+                    m2 = b.create_multi_tag(name="mt2", copy_from=b.multi_tags["mt"])
+                    m2.positions = b.data_arrays["pos"]     # (the HDF5 copy duplicated the positions array with the tag)
+            except Exception as ex:
+                notes.append("copy %s: %s" % (what, type(ex).__name__))
+        return notes
+
+    def register_block(self, bn):
+        b = self.f.blocks[bn]
+        if bn == COPY_BLOCK and BLOCKS[0] in self.frames:
+            self.frames[bn] = {"cols": list(self.frames[BLOCKS[0]]["cols"]),
+                               "rows": [list(r) for r in self.frames[BLOCKS[0]]["rows"]]}
+        for cname, kind in STORES:
+            for e in getattr(b, cname):
+                self.reg(bn, kind, e.name, "block." + cname,
+                         lambda f, bn=bn, cname=cname, nm=e.name: getattr(f.blocks[bn], cname)[nm])
+        self.reg(bn, "source", "s", "block.sources", lambda f, bn=bn: f.blocks[bn].sources["s"])
+        self.reg(bn, "source", "deep", "s.sources", lambda f, bn=bn: f.blocks[bn].sources["s"].sources["deep"])
+        for mt in b.multi_tags:
+            self.alias((bn, "data_array", "pos"), "slot %s/%s.positions" % (bn, mt.name),
+                       lambda f, bn=bn, mn=mt.name: f.blocks[bn].multi_tags[mn].positions)
+
+    def distinguish(self):
+        """every entity gets a definition of its own; arrays that share their id with another array get data of
+        their own, so that an original and its copy never read alike"""
+        shared = {}
+        for key, i in self.ids.items():
+            shared.setdefault(i, []).append(key)
+        for key in self.paths:
+            e = self.paths[key][0][1](self.f)
+            e.definition = "%s/%s/%s" % (key[0], key[1], key[2])
+            if key[1] == "data_array" and len(shared[self.ids[key]]) > 1:
+                shape = e.shape
+                e.write_direct(np.array([self.rng.randrange(-400, 400) / 8.0
+                                         for _ in range(int(np.prod(shape)))]).reshape(shape))
+        self.log.append(["every entity gets its own definition (block/kind/name); arrays sharing an id get data of their own"])
 
     def reg(self, bn, kind, name, desc, getter):
-        self.paths[(bn, kind, name)] = [(desc, getter)]
+        key = (bn, kind, name)
+        self.paths[key] = [(desc, getter)]
+        self.ids[key] = getter(self.f).id
 
-    def alias(self, bn, kind, name, desc, getter):
-        ps = self.paths[(bn, kind, name)]
+    def alias(self, key, desc, getter):
+        """`desc` now leads to `key`.  A description starting with "slot" names a link that holds one target (role
+        link, feature data, metadata, dimension link): it no longer leads to any other entity.  Any other
+        description names a link list, whose entries are named by id: an entry is displaced only by an entity
+        with the same id."""
+        for k2, ps in self.paths.items():
+            if k2 != key and any(p[0] == desc for p in ps) and (desc.startswith("slot ")
+                                                                or self.ids[k2] == self.ids[key]):
+                ps[:] = [p for p in ps if p[0] != desc]
+                self.held.pop((k2, desc), None)
+        ps = self.paths[key]
         ps[:] = [p for p in ps if p[0] != desc] + [(desc, getter)]
+        self.held.pop((key, desc), None)
 
     def unalias(self, desc, pred=lambda key: True):
         for key, ps in self.paths.items():
             if pred(key):
                 ps[:] = [p for p in ps if p[0] != desc]
                 self.held.pop((key, desc), None)
+
+    def primary(self, key):
+        return self.paths[key][0][1](self.f)
+
+    def siblings(self, key):
+        return [k for k in self.paths if k != key and k[1] == key[1] and self.ids[k] == self.ids[key]]
 
     def views(self, key):
         """every way the entity is seen right now: a freshly navigated handle per path, plus the handle that was
@@ -1010,6 +1131,8 @@ class Scene:
         self.f = nixio.File.open(self.path, self.rng.choice([nixio.FileMode.ReadWrite, nixio.FileMode.ReadOnly]))
         self.log.append(["reopen"])
         self.check_all("after reopen")
+        self.check_lists("after reopen")
+        self.check_dims()
         self.held = {}
         self.f.close()
         self.f = nixio.File.open(self.path, nixio.FileMode.ReadWrite)
@@ -1022,20 +1145,48 @@ class Scene:
             return desc + " (handle kept from earlier)", h
         return desc, getter(self.f)
 
+    def pick_target(self, kind, bn, prefer=None):
+        """a candidate of `kind`: same block / another block / (rarely) any kind; `prefer` = an entity whose
+        same-id siblings are tried first (the pairs a decision by id cannot tell apart)"""
+        rng = self.rng
+        if prefer is not None and rng.random() < 0.5:
+            sib = self.siblings(prefer)
+            if sib:
+                return rng.choice(sib)
+        cands = [k for k in self.paths if k[1] == kind]
+        r = rng.random()
+        if r < 0.5:
+            cands = [k for k in cands if k[0] == bn]
+        elif r < 0.85:
+            cands = [k for k in cands if k[0] != bn]
+        else:
+            cands = [k for k in self.paths if k[1] != kind and k[1] != "section" or rng.random() < 0.1]
+        if not cands:
+            return None
+        if rng.random() < 0.5:          # entities that have a same-id sibling
+            paired = [k for k in cands if self.siblings(k)]
+            cands = paired or cands
+        return rng.choice(cands)
+
     def check_entity(self, key, when=""):
         ps = self.views(key)
         ref = None
         for desc, getter in ps:
             self.evals += 1
             try:
-                c = _content(getter(self.f))
+                h = getter(self.f)
+                c = _content(h)
             except Exception as ex:
                 self.fail("reading %s %r of block %s through %s raised %s %s" % (key[1], key[2], key[0], desc,
                                                                                 type(ex).__name__, when),
                           type(ex).__name__, "the entity", "alias-read")
                 continue
             if ref is None:
-                ref = (desc, c)
+                ref = (desc, c, h)
+                continue
+            if not same_obj(h, ref[2]):
+                self.fail("%s leads to another object than %s: not the %s %r of block %s that was linked there %s"
+                          % (desc, ref[0], key[1], key[2], key[0], when), _brief(h), _brief(ref[2]), "alias-identity")
             elif c != ref[1]:
                 diff = sorted(k for k in c if c[k] != ref[1].get(k))
                 self.fail("%s %r of block %s reads differently through %s and %s %s (%s)"
@@ -1047,6 +1198,29 @@ class Scene:
         for key in self.paths:
             self.check_entity(key, when)
 
+    def list_handles(self, L):
+        bn, okind, oname, cname = L
+        return list(getattr(self.primary((bn, okind, oname)), cname))
+
+    def check_list(self, L, when=""):
+        exp = self.lists.get(L, [])
+        self.evals += 1
+        try:
+            got = self.list_handles(L)
+        except Exception as ex:
+            self.fail("iterating %s/%s %s.%s raised %s %s" % (L + (type(ex).__name__, when)), type(ex).__name__,
+                      "the entries", "append")
+            return
+        ok = len(got) == len(exp) and all(same_obj(h, self.primary(k)) for h, k in zip(got, exp))
+        if not ok:
+            self.fail("link list %s/%s %s.%s does not hold the entities that were appended (old entries without the "
+                      "appended id ++ [the appended entity]) %s" % (L + (when,)), [_brief(h) for h in got],
+                      [list(k) for k in exp], "append")
+
+    def check_lists(self, when=""):
+        for L in self.lists:
+            self.check_list(L, when)
+
     # -- actions -----------------------------------------------------------------------
     def link_list(self):
         rng = self.rng
@@ -1055,29 +1229,27 @@ class Scene:
             ("group", "g", "data_arrays", "data_array"), ("group", "h", "data_arrays", "data_array"),
             ("group", "g", "tags", "tag"), ("group", "g", "multi_tags", "multi_tag"), ("group", "g", "sources", "source"),
             ("tag", "tg", "references", "data_array"), ("multi_tag", "mt", "references", "data_array"),
-            ("tag", "tg", "sources", "source"), ("data_array", "x", "sources", "source")])
+            ("tag", "tg", "sources", "source"), ("data_array", "x", "sources", "source"),
+            ("tag", "tg2", "references", "data_array"), ("multi_tag", "mt2", "sources", "source")])
+        if (bn, okind, oname) not in self.paths:
+            okind, oname, cname, kind = "group", "g", "data_arrays", "data_array"
         return bn, okind, oname, cname, kind
 
     def do_append(self):
         rng = self.rng
         bn, okind, oname, cname, kind = self.link_list()
-        cands = [k for k in self.paths if k[1] == kind]
-        r = rng.random()
-        if r < 0.5:
-            cands = [k for k in cands if k[0] == bn]
-        elif r < 0.85:
-            cands = [k for k in cands if k[0] != bn]
-        else:
-            cands = [k for k in self.paths if k[1] != kind and k[1] != "section" or rng.random() < 0.1]
-        if not cands:
+        L = (bn, okind, oname, cname)
+        lst = self.lists.setdefault(L, [])
+        tk = self.pick_target(kind, bn, prefer=rng.choice(lst) if lst else None)
+        if tk is None:
             return
-        tk = rng.choice(cands)
-        _, owner = self.get((bn, okind, oname), 0)
+        owner = self.primary((bn, okind, oname))
         cont = getattr(owner, cname)
         desc, item = self.get(tk)
-        before = [e.id for e in cont]
+        before = list(cont)
         legal = tk[0] == bn and tk[1] == kind
-        self.log.append(["append", "%s/%s %s.%s" % (bn, okind, oname, cname), list(tk), "via " + desc])
+        ldesc = "%s/%s.%s.%s" % (bn, okind, oname, cname)
+        self.log.append(["append", ldesc, list(tk), "via " + desc])
         self.evals += 1
         try:
             cont.append(item)
@@ -1089,19 +1261,13 @@ class Scene:
             accepted = False
             exn = type(ex).__name__
             self.fail("append raised an unexpected %s" % exn, exn, "RuntimeError/TypeError or success", "append")
-        after = [e.id for e in getattr(self.get((bn, okind, oname), 0)[1], cname)]
         if legal:
             if not accepted:
                 self.fail("a %s of the same block was refused by %s.%s" % (kind, okind, cname), exn, "accepted", "append")
             else:
-                exp = [i for i in before if i != item.id] + [item.id]
-                if after != exp:
-                    self.fail("list after append is not old entries without the id ++ [id]", after, exp, "append")
-                pos = len(exp) - 1
-                self.alias(tk[0], tk[1], tk[2], "%s/%s.%s.%s" % (bn, okind, oname, cname),
-                           lambda f, bn=bn, okind=okind, oname=oname, cname=cname, iid=item.id:
-                           [e for e in getattr(f.blocks[bn].__getattribute__(STORE_OF[okind])[oname], cname)
-                            if e.id == iid][0])
+                self.lists[L] = [k for k in lst if self.ids[k] != self.ids[tk]] + [tk]
+                self.alias(tk, ldesc, lambda f, L=L, iid=self.ids[tk]: [e for e in self.list_handles(L) if e.id == iid][0])
+                self.check_list(L, "after append")
                 self.check_entity(tk, "after append")
         else:
             if accepted:
@@ -1109,33 +1275,36 @@ class Scene:
                 self.fail("%s item (%s %r of block %s) accepted by %s.%s of block %s" % (what, tk[1], tk[2], tk[0], okind,
                                                                                        cname, bn),
                           "accepted", "refused", "append-" + what)
-            if after != before and not accepted:
-                self.fail("refused append changed the list", after, before, "append-refused-changed")
-            if accepted:
                 try:
-                    del getattr(self.get((bn, okind, oname), 0)[1], cname)[item.id]
+                    del getattr(self.primary((bn, okind, oname)), cname)[item.id]
                 except Exception:
                     pass
+                gone = [k for k in lst if self.ids[k] == self.ids.get(tk)]
+                self.lists[L] = [k for k in lst if k not in gone]
+                for k in gone:
+                    self.paths[k][:] = [p for p in self.paths[k] if p[0] != ldesc]
+                    self.held.pop((k, ldesc), None)
+            else:
+                after = self.list_handles(L)
+                if len(after) != len(before) or not all(same_obj(a, b) for a, b in zip(after, before)):
+                    self.fail("refused append changed the list", [_brief(h) for h in after], [_brief(h) for h in before],
+                              "append-refused-changed")
 
     def do_role(self):
         rng = self.rng
         bn = rng.choice(self.bnames)
         role = rng.choice(["positions", "extents"])
-        cands = [k for k in self.paths if k[1] == "data_array"]
-        r = rng.random()
-        if r < 0.5:
-            cands = [k for k in cands if k[0] == bn]
-        elif r < 0.85:
-            cands = [k for k in cands if k[0] != bn]
-        else:
-            cands = [k for k in self.paths if k[1] not in ("data_array", "section")]
-        tk = rng.choice(cands)
-        mt = self.get((bn, "multi_tag", "mt"), 0)[1]
+        mname = rng.choice([k[2] for k in self.paths if k[0] == bn and k[1] == "multi_tag"])
+        rdesc = "slot %s/%s.%s" % (bn, mname, role)
+        cur = next((k for k, ps in self.paths.items() if k[0] == bn and any(p[0] == rdesc for p in ps)), None)
+        tk = self.pick_target("data_array", bn, prefer=cur)
+        if tk is None:
+            return
+        mt = self.primary((bn, "multi_tag", mname))
         desc, item = self.get(tk)
         legal = tk[0] == bn and tk[1] == "data_array"
         before = getattr(mt, role)
-        before = before.id if before is not None else None
-        self.log.append(["set " + role, bn, list(tk), "via " + desc])
+        self.log.append(["set " + role, bn, mname, list(tk), "via " + desc])
         self.evals += 1
         try:
             setattr(mt, role, item)
@@ -1143,29 +1312,32 @@ class Scene:
         except Exception as ex:
             accepted = False
             exn = type(ex).__name__
-        now = getattr(self.get((bn, "multi_tag", "mt"), 0)[1], role)
-        now = now.id if now is not None else None
+        now = getattr(self.primary((bn, "multi_tag", mname)), role)
         if legal:
             if not accepted:
                 self.fail("array of the same block refused as %s" % role, exn, "accepted", "role")
-            elif now != item.id:
-                self.fail("%s does not yield the assigned array" % role, now, item.id, "role")
+            elif now is None or not same_obj(now, item):
+                self.fail("%s does not yield the array that was assigned" % role, None if now is None else _brief(now),
+                          _brief(item), "role")
             else:
-                self.unalias("mt." + role, lambda key: key[0] == bn)
-                self.alias(tk[0], tk[1], tk[2], "mt." + role,
-                           lambda f, bn=bn, role=role: getattr(f.blocks[bn].multi_tags["mt"], role))
+                self.alias(tk, rdesc, lambda f, bn=bn, mname=mname, role=role: getattr(f.blocks[bn].multi_tags[mname], role))
                 self.check_entity(tk, "after set " + role)
         else:
             if accepted:
                 self.fail("%s item (%s %r of block %s) accepted as %s of block %s's multi-tag"
                           % ("foreign" if tk[1] == "data_array" else "wrong-kind", tk[1], tk[2], tk[0], role, bn),
                           "accepted", "refused", "role-foreign")
-                self.unalias("mt." + role, lambda key: key[0] == bn)
-                setattr(mt, role, self.get((bn, "data_array", "pos"), 0)[1])
-                self.alias(bn, "data_array", "pos", "mt." + role,
-                           lambda f, bn=bn, role=role: getattr(f.blocks[bn].multi_tags["mt"], role))
-            elif now != before:
-                self.fail("refused %s assignment changed the link" % role, now, before, "role-refused-changed")
+                self.unalias(rdesc)
+                setattr(mt, role, self.primary((bn, "data_array", "pos")))
+                self.alias((bn, "data_array", "pos"), rdesc,
+                           lambda f, bn=bn, mname=mname, role=role: getattr(f.blocks[bn].multi_tags[mname], role))
+            elif (now is None) != (before is None) or (now is not None and not same_obj(now, before)):
+                self.fail("refused %s assignment changed the link" % role, None if now is None else _brief(now),
+                          None if before is None else _brief(before), "role-refused-changed")
+
+    def feat_getter(self, fk):
+        bn, tkind, tname, n0 = fk
+        return lambda f: getattr(f.blocks[bn], STORE_OF[tkind])[tname].features[n0].data
 
     def do_feature(self):
         rng = self.rng
@@ -1175,7 +1347,7 @@ class Scene:
         r = rng.random()
         cands = [k for k in cands if (k[0] == bn) == (r < 0.55)] or cands
         tk = rng.choice(cands)
-        tg = self.get((bn, tkind, tname), 0)[1]
+        tg = self.primary((bn, tkind, tname))
         desc, item = self.get(tk)
         legal = tk[0] == bn
         n0 = len(tg.features)
@@ -1187,39 +1359,84 @@ class Scene:
         except Exception as ex:
             accepted = False
             exn = type(ex).__name__
-        n1 = len(self.get((bn, tkind, tname), 0)[1].features)
+        n1 = len(self.primary((bn, tkind, tname)).features)
         if legal and not accepted:
             self.fail("feature on an array of the same block refused", exn, "accepted", "feature")
         if legal and accepted:
-            self.alias(tk[0], tk[1], tk[2], "%s.features[%d].data" % (tname, n0),
-                       lambda f, bn=bn, tkind=tkind, tname=tname, n0=n0:
-                       getattr(f.blocks[bn], STORE_OF[tkind])[tname].features[n0].data)
+            fk = (bn, tkind, tname, n0)
+            self.featdata[fk] = tk
+            self.alias(tk, "slot %s/%s.features[%d].data" % (bn, tname, n0), self.feat_getter(fk))
             self.check_entity(tk, "after create_feature")
         if not legal and accepted:
             self.fail("feature data from another block accepted", "accepted", "refused", "feature-foreign")
-            del self.get((bn, tkind, tname), 0)[1].features[n0]
+            del self.primary((bn, tkind, tname)).features[n0]
         if not accepted and n1 != n0:
             self.fail("refused create_feature changed the feature list", n1, n0, "feature-refused-changed")
+
+    def do_feature_data(self):
+        """re-point the data link of an existing feature"""
+        rng = self.rng
+        if not self.featdata:
+            return self.do_feature()
+        fk = rng.choice(sorted(self.featdata))
+        bn, tkind, tname, n0 = fk
+        tk = self.pick_target("data_array", bn, prefer=self.featdata[fk])
+        if tk is None:
+            return
+        ft = self.primary((bn, tkind, tname)).features[n0]
+        desc, item = self.get(tk)
+        legal = tk[0] == bn and tk[1] == "data_array"
+        before = ft.data
+        self.log.append(["set feature data", bn, tname, n0, list(tk), "via " + desc])
+        self.evals += 1
+        try:
+            ft.data = item
+            accepted = True
+        except Exception as ex:
+            accepted = False
+            exn = type(ex).__name__
+        now = self.feat_getter(fk)(self.f)
+        sdesc = "slot %s/%s.features[%d].data" % (bn, tname, n0)
+        if legal:
+            if not accepted:
+                self.fail("array of the same block refused as feature data", exn, "accepted", "feature")
+            elif not same_obj(now, item):
+                self.fail("feature.data does not yield the array that was assigned", _brief(now), _brief(item), "feature-data")
+            else:
+                self.featdata[fk] = tk
+                self.alias(tk, sdesc, self.feat_getter(fk))
+                self.check_entity(tk, "after set feature data")
+        else:
+            if accepted:
+                self.fail("%s item (%s %r of block %s) accepted as data of a feature of block %s"
+                          % ("foreign" if tk[1] == "data_array" else "wrong-kind", tk[1], tk[2], tk[0], bn),
+                          "accepted", "refused", "feature-foreign")
+                ft.data = self.primary(self.featdata[fk])
+            elif not same_obj(now, before):
+                self.fail("refused feature data assignment changed the link", _brief(now), _brief(before),
+                          "feature-refused-changed")
 
     def do_metadata(self):
         rng = self.rng
         keys = [k for k in self.paths if k[1] not in ("section",)]
         ok = rng.choice(keys)
-        sk = rng.choice([k for k in self.paths if k[1] == "section"])
+        label = "slot metadata of %s/%s/%s" % ok
+        cur = next((k for k, ps in self.paths.items() if any(p[0] == label for p in ps)), None)
+        secs = [k for k in self.paths if k[1] == "section"]
+        sk = rng.choice(secs)
+        if cur is not None and rng.random() < 0.5 and self.siblings(cur):
+            sk = rng.choice(self.siblings(cur))
         odesc, owner = self.get(ok)
         sdesc, sec = self.get(sk)
         self.log.append(["set metadata", list(ok), "via " + odesc, list(sk), "via " + sdesc])
         self.evals += 1
         owner.metadata = sec
-        label = "metadata of %s/%s/%s" % ok
-        for key, ps in self.paths.items():
-            ps[:] = [p for p in ps if p[0] != label]
-        self.alias(sk[0], sk[1], sk[2], label, lambda f, ok=ok: self.paths[ok][0][1](f).metadata)
+        self.alias(sk, label, lambda f, ok=ok: self.paths[ok][0][1](f).metadata)
         for d, g in self.views(ok):
             m = g(self.f).metadata
-            if m is None or m.id != sec.id:
-                self.fail("metadata set through %s is not visible through %s" % (odesc, d),
-                          None if m is None else m.id, sec.id, "alias-metadata")
+            if m is None or not same_obj(m, sec):
+                self.fail("metadata set through %s is not the section seen through %s" % (odesc, d),
+                          None if m is None else _brief(m), _brief(sec), "alias-metadata")
         self.check_entity(sk, "after metadata link")
 
     def do_mutate(self):
@@ -1236,6 +1453,8 @@ class Scene:
             if got != val:
                 self.fail("%s = %r written through %s reads %r through %s" % (attr, val, desc, got, d), got, val,
                           "alias-write")
+        if attr in ("unit", "label"):
+            self.check_dims()
 
     def do_calib(self):
         """calibration set and cleared again through one path: every other path (fresh or kept handle) reads the
@@ -1272,16 +1491,44 @@ class Scene:
                           [float(v) for v in data.reshape(-1)], "alias-data")
         self.check_dims()
 
+    def do_frame_write(self):
+        """rewrite one column of a block's data frame: dimensions linked to it follow"""
+        rng = self.rng
+        bns = [bn for bn in self.bnames if bn in self.frames]
+        if not bns:
+            return
+        bn = rng.choice(bns)
+        fr_ = self.frames[bn]
+        c = rng.randrange(len(fr_["cols"]))
+        col = [rng.randrange(-8, 8) / 2.0 for _ in fr_["rows"]]
+        self.log.append(["write_column", bn, "df", c, col])
+        self.f.blocks[bn].data_frames["df"].write_column(col, index=c)
+        for r, v in zip(fr_["rows"], col):
+            r[c] = v
+        self.check_dims()
+
     # -- dimensions --------------------------------------------------------------------
     def dims_setup(self):
-        self.dimrec = {}          # (block, array, i) -> {"kind", "ticks"/"labels"/"link": (target key, index)}
+        self.dimrec = {}          # (block, array, i) -> {"kind", "ticks"/"labels"/"link": (target key, index) / "frame": (block, column)}
+
+    def dim_unlinked(self, dk, rec):
+        self.unalias("slot dimension link %s/%s#%d" % dk)
+        rec.pop("link", None)
+        rec.pop("frame", None)
 
     def do_dim(self):
         rng = self.rng
-        akey = rng.choice([k for k in self.paths if k[1] == "data_array"])
+        # mostly stay with the arrays that already have descriptors (a link must exist before it can be replaced)
+        recs = []
+        if self.dimrec and rng.random() < 0.75:
+            linked = [k for k in self.dimrec if "link" in self.dimrec[k] or "frame" in self.dimrec[k]]
+            dk0 = rng.choice(linked) if linked and rng.random() < 0.6 else rng.choice(sorted(self.dimrec))
+            akey = (dk0[0], "data_array", dk0[1])
+            recs = [dk0]
+        else:
+            akey = rng.choice([k for k in self.paths if k[1] == "data_array"])
         adesc, a = self.get(akey)
-        recs = [k for k in self.dimrec if (k[0], k[1]) == (akey[0], akey[2])]
-        if not recs or rng.random() < 0.3:
+        if not recs:
             i = len(a.dimensions) + 1
             if rng.random() < 0.65:
                 ticks = sorted(rng.randrange(-8, 8) / 2.0 for _ in range(rng.randrange(1, 4)))
@@ -1298,12 +1545,20 @@ class Scene:
         dk = rng.choice(recs)
         rec = self.dimrec[dk]
         dim = a.dimensions[dk[2] - 1]
+        ldesc = "slot dimension link %s/%s#%d" % dk
         r = rng.random()
-        if r < 0.55:
-            tkey = rng.choice([k for k in self.paths if k[1] == "data_array"])
+        if r < 0.5:
+            tkey = None
+            if "link" in rec and rng.random() < 0.5:       # re-link: the same array, or another array with the same id
+                tkey = rng.choice(self.siblings(rec["link"][0]) + [rec["link"][0]])
+            if tkey is None:
+                cands = [k for k in self.paths if k[1] == "data_array"]
+                if rng.random() < 0.5:
+                    cands = [k for k in cands if self.siblings(k)] or cands
+                tkey = rng.choice(cands)
             tdesc, t = self.get(tkey)
             shape = list(t.shape)
-            bad = rng.random() < 0.3
+            bad = rng.random() < 0.25
             iv = [rng.randrange(n) for n in shape]
             iv[rng.randrange(len(iv))] = -1
             if bad:
@@ -1323,17 +1578,37 @@ class Scene:
             if not legal and accepted:
                 self.fail("a malformed index vector %r was accepted for an array of shape %r" % (iv, shape), "accepted",
                           "refused", "dimlink-malformed")
-                rec.pop("ticks", None)
-                rec["link"] = (tkey, iv)
-            if legal and accepted:
+            if accepted:
+                self.dim_unlinked(dk, rec)
                 if rec["kind"] == "range":
                     rec.pop("ticks", None)
                 rec["link"] = (tkey, iv)
-                self.unalias("dimension link %s/%s#%d" % dk)
-                self.alias(tkey[0], tkey[1], tkey[2], "dimension link %s/%s#%d" % dk,
-                           lambda f, dk=dk: nixio.DataArray(
-                               f, f.blocks[dk[0]],
-                               f.blocks[dk[0]].data_arrays[dk[1]].dimensions[dk[2] - 1].dimension_link._linked_group()))
+                self.alias(tkey, ldesc, lambda f, dk=dk: nixio.DataArray(
+                    f, f.blocks[dk[0]],
+                    f.blocks[dk[0]].data_arrays[dk[1]].dimensions[dk[2] - 1].dimension_link._linked_group()))
+        elif r < 0.62 and self.frames:
+            bn = rng.choice(sorted(self.frames))
+            ncols = len(self.frames[bn]["cols"])
+            c = rng.choice([0, 1, 2, ncols, -1]) if rng.random() < 0.25 else rng.randrange(ncols)
+            legal = 0 <= c < ncols
+            self.log.append(["link_data_frame", list(dk), bn, "df", c, "via " + adesc])
+            self.evals += 1
+            try:
+                dim.link_data_frame(self.f.blocks[bn].data_frames["df"], c)
+                accepted = True
+            except Exception as ex:
+                accepted = False
+                exn = type(ex).__name__
+            if legal and not accepted:
+                self.fail("a dimension link to column %d of a data frame was refused" % c, exn, "accepted", "dimlink")
+            if not legal and accepted:
+                self.fail("column %d of a frame with %d columns was accepted by link_data_frame" % (c, ncols), "accepted",
+                          "refused", "dimlink-malformed")
+            if legal and accepted:
+                self.dim_unlinked(dk, rec)
+                if rec["kind"] == "range":
+                    rec.pop("ticks", None)
+                rec["frame"] = (bn, c)
         elif r < 0.8 and rec["kind"] == "range":
             ticks = [rng.randrange(-8, 8) / 2.0 for _ in range(rng.randrange(1, 4))]
             if rng.random() < 0.75:
@@ -1349,22 +1624,19 @@ class Scene:
             if legal != accepted:
                 self.fail("ticks %r %s" % (ticks, "accepted" if accepted else "refused"), accepted, legal, "ticks")
             if accepted:
-                if "link" in rec:
-                    self.unalias("dimension link %s/%s#%d" % dk)
-                    # unit and label had been written to the linked array, the dimension keeps its own
-                rec.pop("link", None)
+                # unit and label had been written to the linked array, the dimension keeps its own
+                self.dim_unlinked(dk, rec)
                 rec["ticks"] = ticks
-        elif r < 0.9 and "link" in rec:
+        elif r < 0.9 and ("link" in rec or "frame" in rec):
             self.log.append(["remove_link", list(dk)])
             dim.remove_link()
-            self.unalias("dimension link %s/%s#%d" % dk)
-            rec.pop("link")
+            self.dim_unlinked(dk, rec)
         elif "link" in rec and rec["kind"] == "range":
             val = rng.choice(["mV", "s", None])
             self.log.append(["set unit through the dimension", list(dk), val])
             dim.unit = val
             tkey = rec["link"][0]
-            got = self.get(tkey, 0)[1].unit
+            got = self.primary(tkey).unit
             self.evals += 1
             if got != val:
                 self.fail("unit set through a linked dimension is not the array's unit", got, val, "dimlink-unit")
@@ -1377,7 +1649,7 @@ class Scene:
                 dim = self.f.blocks[dk[0]].data_arrays[dk[1]].dimensions[dk[2] - 1]
                 if "link" in rec:
                     tkey, iv = rec["link"]
-                    t = self.get(tkey, 0)[1]
+                    t = self.primary(tkey)
                     cur = np.array(t[:])
                     sel = tuple(slice(None) if x == -1 else x for x in iv)
                     try:
@@ -1390,19 +1662,47 @@ class Scene:
                     if rec["kind"] == "range" and "ticks" in dim._h5group:
                         self.fail("a linked range dimension still stores explicit ticks", "ticks + link", "link only",
                                   "dimlink-exclusive")
+                    if not bool(dim.dimension_link._linked_group().group == _h5obj(t)):
+                        self.fail("dimension %s/%s#%d is not linked to the array that was handed to link_data_array "
+                                  "(%s %r of block %s)" % (dk + (tkey[1], tkey[2], tkey[0])),
+                                  dim.dimension_link._linked_group().get_attr("name"), tkey[2], "dimlink-identity")
                     try:
                         got = [float(v) for v in (dim.ticks if rec["kind"] == "range" else dim.labels)]
                     except IndexError:
                         got = None
                     if got != exp:
-                        self.fail("linked %s dimension does not report the selected vector of the array's current data"
-                                  % rec["kind"], got, exp, "dimlink-values")
+                        self.fail("linked %s dimension does not report the selected vector of the current data of the "
+                                  "array it was linked to" % rec["kind"], got, exp, "dimlink-values")
                     if rec["kind"] == "range":
                         if dim.unit != t.unit or dim.label != t.label:
-                            self.fail("linked range dimension does not report the array's unit/label",
+                            self.fail("linked range dimension does not report the unit/label of the array it was linked to",
                                       [dim.unit, dim.label], [t.unit, t.label], "dimlink-unit")
                         if not dim.is_alias:
                             self.fail("linked range dimension is not an alias", False, True, "dimlink-state")
+                elif "frame" in rec:
+                    bn, c = rec["frame"]
+                    fr_ = self.frames[bn]
+                    exp = [float(r[c]) for r in fr_["rows"]]
+                    if not dim.has_link:
+                        self.fail("dimension linked to a frame column reports has_link False", False, True, "dimlink-state")
+                        continue
+                    if rec["kind"] == "range" and "ticks" in dim._h5group:
+                        self.fail("a range dimension linked to a frame column still stores explicit ticks", "ticks + link",
+                                  "link only", "dimlink-exclusive")
+                    if not bool(dim.dimension_link._linked_group().group
+                                == _h5obj(self.f.blocks[bn].data_frames["df"])):
+                        self.fail("dimension %s/%s#%d is not linked to the data frame that was handed to link_data_frame"
+                                  % dk, dim.dimension_link._linked_group().get_attr("name"), "df of block " + bn,
+                                  "dimlink-identity")
+                    got = [float(v) for v in (dim.ticks if rec["kind"] == "range" else dim.labels)]
+                    if got != exp:
+                        self.fail("%s dimension linked to column %d of a data frame does not report that column's current "
+                                  "values" % (rec["kind"], c), got, exp, "dimlink-values")
+                    if rec["kind"] == "range":
+                        want = [fr_["cols"][c][1], fr_["cols"][c][0]]
+                        if [dim.unit, dim.label] != want:
+                            self.fail("range dimension linked to a frame column does not report the column's unit and name",
+                                      [dim.unit, dim.label], want, "dimlink-unit")
                 else:
                     if dim.has_link:
                         self.fail("dimension without a link reports has_link True", True, False, "dimlink-state")
@@ -1423,12 +1723,12 @@ class Scene:
     def refused_link_keeps_ticks(self):
         """fixed defect: a refused link_data_array removed the ticks"""
         bn = self.bnames[0]
-        a = self.get((bn, "data_array", "y"), 0)[1]
+        a = self.primary((bn, "data_array", "y"))
         d = a.append_range_dimension([1.0, 2.0])
         i = len(a.dimensions)
         self.dimrec[(bn, "y", i)] = {"kind": "range", "ticks": [1.0, 2.0]}
         self.log.append(["append_range_dimension [1,2]; link_data_array with a wrong rank", bn, "y"])
-        t = self.get((bn, "data_array", "pos"), 0)[1]
+        t = self.primary((bn, "data_array", "pos"))
         try:
             d.link_data_array(t, [0, -1])
             self.fail("rank mismatch accepted by link_data_array", "accepted", "refused", "dimlink-malformed")
@@ -1527,16 +1827,14 @@ def audit_file(f, log):
     fails = []
     n = 0
 
-    def same(a, b):
-        return a._h5group.group == b._h5group.group
-
     for b in f.blocks:
-        own = {c: {e.id: e for e in getattr(b, c)} for c in ("data_arrays", "tags", "multi_tags")}
-        own["sources"] = {s.id: s for s in b.find_sources()}
+        # the block's own entities, found by OBJECT (two entities of a block may carry the same id: id-keeping copies)
+        own = {c: list(getattr(b, c)) for c in ("data_arrays", "tags", "multi_tags")}
+        own["sources"] = list(b.find_sources())
 
         def chk(e, store, where):
-            o = own[store].get(e.id)
-            if o is None or not same(o, e):
+            o = next((o for o in own[store] if same_obj(o, e)), None)
+            if o is None:
                 fails.append(Failure("%s of block %s leads to an entity that is not the block's own %s" % (where, b.name,
                                                                                                           store),
                                      list(log), [getattr(e, "name", None), e.id], "an entity of block " + b.name,
@@ -1581,6 +1879,19 @@ def audit_file(f, log):
                 if isinstance(d, RangeDimension) and "ticks" in d._h5group:
                     fails.append(Failure("range dimension %s#%d has explicit ticks and a link" % (a.name, i + 1), list(log),
                                          "ticks + link", "one of them", "audit-exclusive"))
+                if dl._data_object_type == "DataFrame":
+                    tgt = nixio.DataFrame(f, b, dl._linked_group())
+                    col = int(dl.index)
+                    exp = [float(r[col]) for r in tgt._h5group.get_data("data")]
+                    got = [float(v) for v in (d.ticks if isinstance(d, RangeDimension) else d.labels)]
+                    if got != exp:
+                        fails.append(Failure("dimension %s#%d linked to a frame column does not report the column's current "
+                                             "values" % (a.name, i + 1), list(log), got, exp, "audit-dimlink"))
+                    if isinstance(d, RangeDimension) and (d.unit != tgt.units[col] or d.label != tgt.column_names[col]):
+                        fails.append(Failure("range dimension %s#%d linked to a frame column does not report the column's "
+                                             "unit and name" % (a.name, i + 1), list(log), [d.unit, d.label],
+                                             [tgt.units[col], tgt.column_names[col]], "audit-dimlink"))
+                    continue
                 tgt = nixio.DataArray(f, b, dl._linked_group())
                 cur = np.array(tgt[:])
                 sel = tuple(slice(None) if x == -1 else int(x) for x in dl.index)
@@ -1638,8 +1949,8 @@ def _scene_run(ctx, rng, steps, tag):
         sc.dims_setup()
         sc.refused_link_keeps_ticks()
         acts = [(sc.do_append, 0.26), (sc.do_role, 0.1), (sc.do_feature, 0.07), (sc.do_metadata, 0.07),
-                (sc.do_mutate, 0.16), (sc.do_write, 0.1), (sc.do_dim, 0.2), (sc.reopen, 0.04),
-                (sc.do_calib, 0.06)]
+                (sc.do_mutate, 0.16), (sc.do_write, 0.1), (sc.do_dim, 0.22), (sc.reopen, 0.04),
+                (sc.do_calib, 0.05), (sc.do_feature_data, 0.06), (sc.do_frame_write, 0.03)]
         tot = sum(w for _, w in acts)
         for _ in range(steps):
             r = rng.random() * tot
@@ -1656,6 +1967,7 @@ def _scene_run(ctx, rng, steps, tag):
             if len(sc.fails) > 6:
                 break
         sc.check_all("at the end")
+        sc.check_lists("at the end")
         sc.check_dims()
         fs, m = audit_file(sc.f, sc.log)
         sc.fails += fs
